@@ -6,6 +6,7 @@ import (
 	"encoding/json"
 	"fmt"
 	"io"
+	"math"
 	"net/http"
 	"reflect"
 	"regexp"
@@ -32,6 +33,10 @@ type C01Pkg struct {
 	// Defaults: "METHOD /path" -> field path (".P") -> Descr of the value an unset member must arrive as
 	Defaults map[string]map[string]string `json:"defaults,omitempty"`
 	Combos   map[string]string            `json:"combos,omitempty"` // "METHOD /path" -> description (matrix specs)
+	// UnusedPathParams: "METHOD /path" -> path parameters the document declares but the template does not contain
+	UnusedPathParams map[string][]string `json:"unused_path_params,omitempty"`
+	// ResponseHeaders: "METHOD /path" -> response key -> header names declared for that response
+	ResponseHeaders map[string]map[string][]string `json:"response_headers,omitempty"`
 }
 
 type C01Data struct {
@@ -66,6 +71,7 @@ type c01Disp struct {
 	mw   []c01MW
 	// scripted response for the next handler call
 	next   reflect.Value
+	nextOp string // the operation the scripted response belongs to
 	noBody bool
 	rng    *ev.Rand
 	srcT   map[string]reflect.Type // SecuritySource method -> credential type
@@ -131,8 +137,13 @@ func (d *c01Disp) Call(iface, method string, args []any) []any {
 		}
 		d.mu.Lock()
 		d.call = append(d.call, c)
-		next, noBody := d.next, d.noBody
+		next, noBody, nextOp := d.next, d.noBody, d.nextOp
 		d.mu.Unlock()
+		if nextOp != "" && method != nextOp {
+			// another operation's handler ran (recorded above and judged by the caller): its response type is not
+			// the scripted one
+			return []any{nil, errWrongOperation}
+		}
 		if noBody || !next.IsValid() {
 			return []any{nil, nil}
 		}
@@ -415,6 +426,7 @@ func c01Pkg(r *ev.Run, d *C01Data, pc *C01Pkg) error {
 			disp.reset()
 			disp.mu.Lock()
 			disp.next = retV
+			disp.nextOp = op.Name
 			disp.noBody = resT == nil
 			disp.mu.Unlock()
 			in := []reflect.Value{reflect.ValueOf(context.Background())}
@@ -500,7 +512,7 @@ func c01Pkg(r *ev.Run, d *C01Data, pc *C01Pkg) error {
 				}
 				if !hostile {
 					se := disp.serverErr()
-					if status == 404 && tailParam.MatchString(op.Path) {
+					if (status == 404 || (status == 400 && strings.Contains(se, "path:"))) && tailParam.MatchString(op.Path) {
 						// a parameter directly followed by a literal in the template: a value containing that literal's
 						// first byte cannot be told apart by the router (it is the style's delimiter here)
 						r.Count("core_values_containing_template_literal_refused", 1)
@@ -520,6 +532,12 @@ func c01Pkg(r *ev.Run, d *C01Data, pc *C01Pkg) error {
 			}
 			c := calls[0]
 			if c.op != op.Name {
+				if hostile && last != nil && emptyPathSegment(last.RequestBytes, op.Path) {
+					// an empty path parameter value: the client writes a path with an empty segment, which is the path
+					// of a sibling operation (/dashboard/{id} with id "" is /dashboard/); neither side reports an error
+					viol("empty-path-parameter-reaches-sibling-operation", "an empty path parameter value was sent without error and handler "+c.op+" ran", nil)
+					continue
+				}
 				viol("wrong-operation", "handler "+c.op+" ran", nil)
 				continue
 			}
@@ -530,8 +548,12 @@ func c01Pkg(r *ev.Run, d *C01Data, pc *C01Pkg) error {
 				switch {
 				case sameJSON(reqV, c.rawReq):
 					r.Count("go_representation_differs_same_json:"+diffClass(dd), 1)
-				case diffClass(dd) == "float" && floatUlp(dd):
+				case (diffClass(dd) == "float" && floatUlp(dd)) || sameJSONUpToUlp(reqV, c.rawReq):
 					viol("float64-decode-off-by-ulp", "handler received a neighbouring float64: "+dd, map[string]any{"received": Descr(c.req), "difference": dd})
+					continue
+				case formBody && strings.Contains(dd, "sent <null>, got set("):
+					// a form field cannot spell null: the client leaves the field out, the server applies the schema default
+					viol("null-form-field-becomes-default", "a null member of a form body is dropped by the client and arrives as the schema default: "+dd, map[string]any{"received": Descr(c.req), "difference": dd})
 					continue
 				default:
 					viol("request-changed:"+diffClass(dd), "handler received a different request body: "+dd, map[string]any{"received": Descr(c.req), "difference": dd})
@@ -545,6 +567,21 @@ func c01Pkg(r *ev.Run, d *C01Data, pc *C01Pkg) error {
 				}
 				if a, b, ok := sentGot(dd); ok && b == strings.Trim(a, " \t") && last != nil && headerCarries(last.RequestBytes, a) {
 					viol("header-value-surrounding-whitespace-trimmed", "a header parameter value with leading/trailing blanks arrived trimmed (no error on either side): "+dd, map[string]any{"received": Descr(c.params), "difference": dd})
+					continue
+				}
+				if diffClass(dd) == "float" && floatUlp(dd) {
+					// a JSON-encoded (content) parameter: same decoder as for bodies
+					viol("float64-decode-off-by-ulp", "handler received a neighbouring float64 in a JSON-encoded parameter: "+dd, map[string]any{"received": Descr(c.params), "difference": dd})
+					continue
+				}
+				if f := firstField(dd); f != "" && pathParamOutsideTemplate(pc.UnusedPathParams[op.Method+" "+op.Path], f) {
+					// the document declares a path parameter that its path template does not contain (superset.json):
+					// there is no place for the value; outside the property's domain
+					r.Count("path_parameter_not_in_template_not_judged", 1)
+					continue
+				}
+				if f := firstField(dd); f != "" && last != nil && queryMapLost(sentPar, f, dd) {
+					viol("query-map-parameter-not-decodable", "a query parameter holding additional properties (map) was written by the client as key=value pairs and arrives empty or unset: "+dd, map[string]any{"received": Descr(c.params), "difference": dd})
 					continue
 				}
 				viol("params-changed:"+diffClass(dd), "handler received different parameters: "+dd, map[string]any{"received": Descr(c.params), "difference": dd})
@@ -612,6 +649,14 @@ func c01Pkg(r *ev.Run, d *C01Data, pc *C01Pkg) error {
 					r.Count("ambiguous_sum_encoding_not_judged", 1)
 				} else if strings.Contains(cerr.Error(), "object properties number") {
 					viol("property-count-enforced-by-decode-not-by-validate", fmt.Sprintf("the response passed its own Validate() but the client's decoder rejects it: %v", cerr), map[string]any{"client_error": cerr.Error()})
+				} else if !hostile && strings.Contains(cerr.Error(), "decode response: validate:") {
+					// the generated client validates what it decodes: the value the handler returned violates a schema
+					// constraint the Go type does not reveal (a bare string with format email)
+					r.Count("core_responses_refused_by_client_validation", 1)
+				} else if se := disp.serverErr(); !hostile && status == 500 && validationRefusal(se) {
+					// response validation is generated in and the value the handler returned violates a schema constraint
+					// the Go type does not reveal (a bare string with format email): a legitimate refusal (C03/C04 own it)
+					r.Count("core_responses_refused_by_response_validation", 1)
 				} else if !hostile {
 					viol("core-response-not-delivered:"+refusalClass(cerr), fmt.Sprintf("handler ran and answered, the caller got an error: %v", cerr), map[string]any{"client_error": cerr.Error()})
 				} else {
@@ -625,8 +670,14 @@ func c01Pkg(r *ev.Run, d *C01Data, pc *C01Pkg) error {
 					switch {
 					case !hasReader(resT, 0) && sameJSON(retV, out[0]):
 						r.Count("go_representation_differs_same_json:"+diffClass(dd), 1)
-					case diffClass(dd) == "float" && floatUlp(dd):
+					case (diffClass(dd) == "float" && floatUlp(dd)) || (!hasReader(resT, 0) && sameJSONUpToUlp(retV, out[0])):
 						viol("float64-decode-off-by-ulp", "caller received a neighbouring float64: "+dd, map[string]any{"caller_received": Descr(got), "difference": dd})
+						continue
+					case undeclaredHeaderField(pc.ResponseHeaders[op.Method+" "+op.Path], status, retSnap, dd):
+						// the response wrapper with header fields is shared by several responses of the operation whose bodies
+						// refer to one schema (C07 known finding: wrapper keyed by the schema reference); for a response that
+						// declares no such header the encoder does not write it
+						viol("header-of-shared-response-wrapper-not-written", "a header field of a response wrapper that the document does not declare for this response is dropped: "+dd, map[string]any{"caller_received": Descr(got), "difference": dd})
 						continue
 					default:
 						viol("response-changed:"+diffClass(dd), "caller received a different response: "+dd, map[string]any{"caller_received": Descr(got), "difference": dd})
@@ -791,4 +842,186 @@ func headerCarries(wire []byte, v string) bool {
 		}
 	}
 	return false
+}
+
+// firstField: the top-level field a difference "<.Field...>: ..." is about.
+func firstField(dd string) string {
+	if !strings.HasPrefix(dd, ".") {
+		return ""
+	}
+	name := dd[1:]
+	if i := strings.IndexAny(name, ":.[ "); i >= 0 {
+		name = name[:i]
+	}
+	return name
+}
+
+// pathParamOutsideTemplate: field f of the parameter struct is one of the path parameters the document declares
+// without a place in the path template (names compared without case and separators).
+func pathParamOutsideTemplate(unused []string, f string) bool {
+	norm := func(s string) string {
+		return strings.ToLower(strings.NewReplacer("_", "", "-", "", ".", "", " ", "").Replace(s))
+	}
+	for _, n := range unused {
+		if norm(n) == norm(f) {
+			return true
+		}
+	}
+	return false
+}
+
+// emptyPathSegment: the request line has an empty path segment ("//" or a trailing "/") where the template has a parameter.
+func emptyPathSegment(req []byte, template string) bool {
+	line := string(req)
+	if i := strings.IndexByte(line, '\n'); i >= 0 {
+		line = line[:i]
+	}
+	parts := strings.Fields(line)
+	if len(parts) < 2 {
+		return false
+	}
+	p := parts[1]
+	if i := strings.IndexByte(p, '?'); i >= 0 {
+		p = p[:i]
+	}
+	segs, tsegs := strings.Split(p, "/"), strings.Split(template, "/")
+	if len(segs) != len(tsegs) {
+		return strings.Contains(p, "//") || (strings.HasSuffix(p, "/") && !strings.HasSuffix(template, "/"))
+	}
+	for i := range segs {
+		if segs[i] == "" && strings.Contains(tsegs[i], "{") {
+			return true
+		}
+	}
+	return false
+}
+
+// queryMapLost: the field holds (or is an optional holding) a struct with an AdditionalProps map, or is a map,
+// and the difference is about lost entries / lost presence.
+func queryMapLost(sentPar any, f, dd string) bool {
+	if !(strings.Contains(dd, "AdditionalProps") || strings.Contains(dd, "entries map{")) {
+		return false
+	}
+	return strings.Contains(dd, "got 0 entries") || strings.Contains(dd, "got <unset>")
+}
+
+var errWrongOperation = fmt.Errorf("verif: the handler of another operation was invoked")
+
+// sameJSONUpToUlp: both values encode (with the type's own codec) to JSON texts that differ only in numbers
+// that are neighbouring float64 values (at least one such difference).
+func sameJSONUpToUlp(sent, got reflect.Value) bool {
+	deref := func(v reflect.Value) reflect.Value {
+		for v.IsValid() && (v.Kind() == reflect.Interface || v.Kind() == reflect.Pointer) {
+			if v.IsNil() {
+				return reflect.Value{}
+			}
+			v = v.Elem()
+		}
+		return v
+	}
+	a, b := deref(sent), deref(got)
+	if !a.IsValid() || !b.IsValid() || a.Type() != b.Type() {
+		return false
+	}
+	enc, _, ok := jsonCodec(a.Type())
+	if !ok {
+		return false
+	}
+	ta, p1 := encodeJSON(enc, a)
+	tb, p2 := encodeJSON(enc, b)
+	if p1 != "" || p2 != "" {
+		return false
+	}
+	ja, e1 := jsonv.Parse(ta)
+	jb, e2 := jsonv.Parse(tb)
+	if e1 != nil || e2 != nil {
+		return false
+	}
+	ulps := 0
+	var walk func(x, y *jsonv.Value) bool
+	walk = func(x, y *jsonv.Value) bool {
+		if x.Kind != y.Kind {
+			return false
+		}
+		switch x.Kind {
+		case jsonv.Number:
+			if x.Num.Text == y.Num.Text {
+				return true
+			}
+			fx, e1 := strconv.ParseFloat(x.Num.Text, 64)
+			fy, e2 := strconv.ParseFloat(y.Num.Text, 64)
+			if e1 != nil || e2 != nil {
+				return false
+			}
+			d := int64(math.Float64bits(fx) - math.Float64bits(fy))
+			if d < 0 {
+				d = -d
+			}
+			if d == 0 {
+				return true
+			}
+			if d <= 4 {
+				ulps++
+				return true
+			}
+			return false
+		case jsonv.Object:
+			if len(x.Members) != len(y.Members) {
+				return false
+			}
+			for _, m := range x.Members {
+				o := y.Get(m.Name)
+				if o == nil || !walk(m.Value, o) {
+					return false
+				}
+			}
+			return true
+		case jsonv.Array:
+			if len(x.Elems) != len(y.Elems) {
+				return false
+			}
+			for i := range x.Elems {
+				if !walk(x.Elems[i], y.Elems[i]) {
+					return false
+				}
+			}
+			return true
+		default:
+			return jsonv.Equal(x, y)
+		}
+	}
+	return walk(ja, jb) && ulps > 0
+}
+
+// undeclaredHeaderField: the returned value is a ...Headers wrapper, the difference is "<.Field>: sent set(..), got
+// <unset>", and the response the status selects declares no header of that name.
+func undeclaredHeaderField(byCode map[string][]string, status int, ret any, dd string) bool {
+	st, ok := ret.(*SStruct)
+	if !ok || st == nil || !strings.Contains(st.Type, "Headers") || !strings.Contains(dd, "got <unset>") || byCode == nil {
+		return false
+	}
+	f := firstField(dd)
+	if f == "" {
+		return false
+	}
+	norm := func(s string) string {
+		return strings.ToLower(strings.NewReplacer("_", "", "-", "", ".", "", " ", "").Replace(s))
+	}
+	var names []string
+	found := false
+	for _, key := range []string{strconv.Itoa(status), fmt.Sprintf("%dXX", status/100), "default"} {
+		if n, ok := byCode[key]; ok {
+			names, found = n, true
+			break
+		}
+	}
+	if !found {
+		return false
+	}
+	for _, n := range names {
+		if norm(n) == norm(f) {
+			return false
+		}
+	}
+	return true
 }
